@@ -104,6 +104,16 @@ do {							\
 	assert(chunk_magic == QB_RB_CHUNK_MAGIC); \
 } while (0)
 
+/*
+ * A chunk is only there to be consumed if it has been published AND the
+ * ring is not empty. When read_pt has caught up with write_pt the words at
+ * read_pt are stale payload of earlier chunks, which may well look like
+ * a published chunk header.
+ */
+#define QB_RB_CHUNK_IS_READABLE(rb, pointer) \
+	(QB_RB_CHUNK_MAGIC_GET(rb, pointer) == QB_RB_CHUNK_MAGIC && \
+	 (pointer) != (rb)->shared_hdr->write_pt)
+
 #define idx_step(idx)					\
 do {							\
 	if (idx > (rb->shared_hdr->word_size - 1)) {		\
@@ -535,12 +545,10 @@ _rb_chunk_reclaim(struct qb_ringbuffer_s * rb)
 	uint32_t old_read_pt;
 	uint32_t new_read_pt;
 	uint32_t old_chunk_size;
-	uint32_t chunk_magic;
 	int rc = 0;
 
 	old_read_pt = rb->shared_hdr->read_pt;
-	chunk_magic = QB_RB_CHUNK_MAGIC_GET(rb, old_read_pt);
-	if (chunk_magic != QB_RB_CHUNK_MAGIC) {
+	if (!QB_RB_CHUNK_IS_READABLE(rb, old_read_pt)) {
 		errno = EINVAL;
 		return -errno;
 	}
@@ -595,7 +603,6 @@ qb_rb_chunk_peek(struct qb_ringbuffer_s * rb, void **data_out, int32_t timeout)
 {
 	uint32_t read_pt;
 	uint32_t chunk_size;
-	uint32_t chunk_magic;
 	int32_t res = 0;
 
 	if (rb == NULL) {
@@ -614,8 +621,7 @@ qb_rb_chunk_peek(struct qb_ringbuffer_s * rb, void **data_out, int32_t timeout)
 		return res;
 	}
 	read_pt = rb->shared_hdr->read_pt;
-	chunk_magic = QB_RB_CHUNK_MAGIC_GET(rb, read_pt);
-	if (chunk_magic != QB_RB_CHUNK_MAGIC) {
+	if (!QB_RB_CHUNK_IS_READABLE(rb, read_pt)) {
 		if (rb->notifier.post_fn) {
 			(void)rb->notifier.post_fn(rb->notifier.instance, res);
 		}
@@ -636,7 +642,6 @@ qb_rb_chunk_read(struct qb_ringbuffer_s * rb, void *data_out, size_t len,
 {
 	uint32_t read_pt;
 	uint32_t chunk_size;
-	uint32_t chunk_magic;
 	int32_t res = 0;
 
 	if (rb == NULL) {
@@ -654,9 +659,8 @@ qb_rb_chunk_read(struct qb_ringbuffer_s * rb, void *data_out, size_t len,
 	}
 
 	read_pt = rb->shared_hdr->read_pt;
-	chunk_magic = QB_RB_CHUNK_MAGIC_GET(rb, read_pt);
 
-	if (chunk_magic != QB_RB_CHUNK_MAGIC) {
+	if (!QB_RB_CHUNK_IS_READABLE(rb, read_pt)) {
 		if (rb->notifier.timedwait_fn == NULL) {
 			return -ETIMEDOUT;
 		} else {
